@@ -10,6 +10,7 @@
  */
 #include "sim.h"
 
+#include <stdarg.h>
 #include <stdlib.h>
 #include <string.h>
 #include <librfn/mlog.h>
@@ -19,12 +20,13 @@ static const char *const fault_names[] = { "counter_jump", "alloc_fail", "sink_s
 					   "sink_error", "really_logged_2^31_messages", NULL };
 enum { P_FOLD_CROSSED, P_WRAPPED_256, P_NICE_REFUSED, P_NICE_ACCEPTED, P_NEG_INDEX, P_INDEX_PAST,
        P_CLEAR_AFTER_WRAP, P_EXACT_256, P_DUMP_FULL, P_SHORTCUT_VALIDATED, P_SHORTCUT_MISMATCH,
-       P_COUNTER_NOT_FOUND, P_JUMP_NOT_NEUTRAL };
+       P_COUNTER_NOT_FOUND, P_JUMP_NOT_NEUTRAL, P_VA_LIST_ENTRY };
 static const char *const probe_names[] = {
 	"counter_fold_crossed", "ring_wrapped", "nice_refused", "nice_accepted", "negative_index",
 	"index_at_or_past_count", "clear_after_wrap", "exactly_256_messages", "dump_of_full_ring",
 	"jump_shortcut_equals_brute_force_state", "jump_shortcut_differs_from_brute_force_state",
-	"counter_word_not_located", "jump_undone_because_it_changed_the_visible_lines", NULL };
+	"counter_word_not_located", "jump_undone_because_it_changed_the_visible_lines",
+	"logged_through_vmlog_or_vmlog_nice", NULL };
 
 static const char *const fmts[] = {
 	"plain message\n",
@@ -118,12 +120,34 @@ static const ent_t *m_line(int64_t k)
 	return &ring[(n_since_clear - have + k) % 256];
 }
 
+/* the va_list entry points, as a caller with its own variadic wrapper uses them */
+static void via_vmlog(bool nice, const char *fmt, ...)
+{
+	va_list ap;
+	va_start(ap, fmt);
+	if (nice)
+		vmlog_nice(fmt, ap);
+	else
+		vmlog(fmt, ap);
+	va_end(ap);
+}
+
 static void do_log(bool nice)
 {
 	ent_t e;
 	gen_entry(&e);
 	sim_budget(100000);
-	if (nice) {
+	if (sim_chance(1, 4)) {
+		sim_probe(P_VA_LIST_ENTRY);
+		via_vmlog(nice, fmts[e.fmt], e.a[0], e.a[1], e.a[2]);
+		if (!nice || n_since_clear < 256) {
+			m_record(&e);
+			if (nice)
+				sim_probe(P_NICE_ACCEPTED);
+		} else {
+			sim_probe(P_NICE_REFUSED);
+		}
+	} else if (nice) {
 		mlog_nice(fmts[e.fmt], e.a[0], e.a[1], e.a[2]);
 		if (n_since_clear < 256) {
 			m_record(&e);
